@@ -37,7 +37,7 @@ func init() {
 			"(D2) no integer conversion between the decoded prefix (or the limit) and a comparison/use narrows the value before it has been bounded, for int=64 and int=32; when the prefix is decoded by a module function of the uvarint shape (ReadByte in a loop, byte masked with 0x7f, shift growing by 7) instead of binary.ReadUvarint, a call to it counts as the prefix decode for D1/D5 and the function is evaluated over a finite domain of byte classes and positions (absint.go; nothing is executed): more than 10 bytes, a 10th byte above 1, an endless run of continuation bytes and a ReadByte error must all end in an error return, as in binary.ReadUvarint — otherwise bits are shifted out and the length compared is a truncation of the wire prefix; " +
 			"(D3) the error of every decode/read/write/marshal call in the reader and writer paths is tested with a failing side that reaches only error returns, or is returned; the bytes given to proto.Unmarshal are exactly the bytes of a preceding full read whose success dominates the decode; every success return of ReadMsg passes the nil-error side of that decode; " +
 			"(D4) the reader obtains bytes only through chunk-agnostic calls (io.ReadFull, io.ReadAtLeast with min=len(buf), binary.ReadUvarint/ReadByte on the buffered reader), never a bare Read (a Read inside a loop that uses the count is accepted with a note); the object those calls read from is resolved from what the constructors store in the reader's field: a library type (bufio.Reader, ...) or the caller's reader as given is accepted (a caller-supplied io.ByteReader picked up by a type assertion is noted), while for a module type the ReadByte/Read method the library call will invoke must itself honour the io.Reader contract — every bare Read in it uses the byte count and no return on the error side is reached before the count has been examined (bytes delivered together with io.EOF must not be lost); " +
-			"(D5) writer and reader of one pair use the same prefix codec family and width, the same byte-order source, the reader reads exactly the prefix width, and on the writer's marshal-then-write path the value encoded is len(body) of the very slice written after the prefix (prefix first). " +
+			"(D5) writer and reader of one pair use the same prefix codec family and width, the same byte-order source, the reader reads exactly the prefix width, and on the writer's marshal-then-write path the value encoded is len(body) of the very slice written after the prefix (prefix first); functions handed on as VALUES (a plain function, closure or bound method passed to a helper's func-typed parameter) belong to the analysed set, a call through such a parameter is bound to the values passed at the call sites of the writer being analysed, and the frame assembly (len(body), the two writes, their order, the prefix buffer's length) is judged in the function that takes len(body), once per writer. " +
 			"Not decided: byte-identical round trip of message contents (protobuf is trusted), that the grow-if-needed test makes the slice fit its buffer, the length arithmetic of the marshaler fast path (Size()+MarshalTo into one buffer; noted), overflow of the writer's uint32 prefix for bodies of 4 GiB and more (noted), stores to the reused buffer between the read and the decode, behaviour of NewFullReader/NewFullWriter (not length-delimited), anything executed.",
 		Trusted:     []string{"golang.org/x/tools go/packages+go/ssa (v0.29.0), go/types", "encoding/binary, io.ReadFull/ReadAtLeast, bufio.Reader and google.golang.org/protobuf/proto behave as documented (proto.Unmarshal copies what it keeps)", "package-level error variables (io.ErrShortBuffer, io.EOF, ...) are non-nil"},
 		Assumptions: []string{"the configured limit is non-negative and representable in every integer type the length passes through", "int is 32 or 64 bits wide; pkg/protoio has no architecture-specific files", "only module code is analysed; dependencies by their typed API"},
@@ -193,6 +193,22 @@ func c18StaticClosure(root *ssa.Function, depth int) []*ssa.Function {
 							cal = o
 						}
 						next = append(next, cal)
+					}
+				}
+				// functions used as values (a function or bound method handed to a helper
+				// that calls it through a func-typed parameter)
+				var ops [8]*ssa.Value
+				for _, op := range in.Operands(ops[:0]) {
+					if op == nil || *op == nil {
+						continue
+					}
+					switch v := (*op).(type) {
+					case *ssa.Function:
+						next = append(next, v)
+					case *ssa.MakeClosure:
+						if fv, ok := v.Fn.(*ssa.Function); ok {
+							next = append(next, fv)
+						}
 					}
 				}
 			}
@@ -439,6 +455,8 @@ type c18Side struct {
 	// module functions of the set recognised as hand-written uvarint decoders: a call to one
 	// is a prefix decode, like binary.ReadUvarint
 	decoders map[*ssa.Function]bool
+	dyn      map[ssa.CallInstruction][]*ssa.Function
+	dynBusy  map[ssa.CallInstruction]bool
 }
 
 func newC18Side(c *Ctx, root *ssa.Function, limit map[c18Field]bool) *c18Side {
@@ -501,13 +519,185 @@ func (s *c18Side) callSites(fn *ssa.Function) []ssa.CallInstruction {
 	for _, f := range s.set {
 		for _, b := range f.Blocks {
 			for _, in := range b.Instrs {
-				if ci, ok := in.(ssa.CallInstruction); ok && staticCallee(ci.Common()) == fn {
+				ci, ok := in.(ssa.CallInstruction)
+				if !ok {
+					continue
+				}
+				if staticCallee(ci.Common()) == fn {
 					out = append(out, ci)
+					continue
+				}
+				for _, t := range s.dynTargets(ci) {
+					if t == fn {
+						out = append(out, ci)
+						break
+					}
 				}
 			}
 		}
 	}
 	return out
+}
+
+// dynTargets: the module functions a call through a function VALUE reaches, resolved inside this
+// side only: the value is a func-typed parameter bound to the function, closure or bound method
+// passed at the call sites of the enclosing function (so a helper shared by two writers is
+// seen, per writer, with that writer's argument), a local, a phi or a conversion of those.
+// Arguments and parameters line up: a closure's bindings are free variables, not parameters.
+func (s *c18Side) dynTargets(ci ssa.CallInstruction) []*ssa.Function {
+	cc := ci.Common()
+	if cc.IsInvoke() || staticCallee(cc) != nil {
+		return nil
+	}
+	if _, isB := cc.Value.(*ssa.Builtin); isB {
+		return nil
+	}
+	if s.dyn == nil {
+		s.dyn = map[ssa.CallInstruction][]*ssa.Function{}
+		s.dynBusy = map[ssa.CallInstruction]bool{}
+	}
+	if t, ok := s.dyn[ci]; ok {
+		return t
+	}
+	if s.dynBusy[ci] {
+		return nil
+	}
+	s.dynBusy[ci] = true
+	var out []*ssa.Function
+	s.funcValues(cc.Value, &out, map[ssa.Value]bool{}, 0)
+	delete(s.dynBusy, ci)
+	s.dyn[ci] = out
+	return out
+}
+
+func (s *c18Side) funcValues(v ssa.Value, out *[]*ssa.Function, seen map[ssa.Value]bool, depth int) {
+	if v == nil || seen[v] || depth > 8 {
+		return
+	}
+	seen[v] = true
+	add := func(f *ssa.Function) {
+		if f == nil || !s.inSet[f] {
+			return
+		}
+		for _, x := range *out {
+			if x == f {
+				return
+			}
+		}
+		*out = append(*out, f)
+	}
+	switch x := v.(type) {
+	case *ssa.Function:
+		add(x)
+	case *ssa.MakeClosure:
+		if f, ok := x.Fn.(*ssa.Function); ok {
+			add(f)
+		}
+	case *ssa.ChangeType:
+		s.funcValues(x.X, out, seen, depth+1)
+	case *ssa.Phi:
+		for _, e := range x.Edges {
+			s.funcValues(e, out, seen, depth+1)
+		}
+	case *ssa.Parameter:
+		idx := -1
+		for i, p := range x.Parent().Params {
+			if p == x {
+				idx = i
+			}
+		}
+		for _, cs := range s.callSites(x.Parent()) {
+			if args := cs.Common().Args; idx >= 0 && idx < len(args) {
+				s.funcValues(args[idx], out, seen, depth+1)
+			}
+		}
+	case *ssa.FreeVar:
+		fn := x.Parent()
+		idx := -1
+		for i, fv := range fn.FreeVars {
+			if fv == x {
+				idx = i
+			}
+		}
+		if par := fn.Parent(); par != nil && idx >= 0 {
+			for _, b := range par.Blocks {
+				for _, in := range b.Instrs {
+					if mc, ok := in.(*ssa.MakeClosure); ok && mc.Fn == ssa.Value(fn) && idx < len(mc.Bindings) {
+						s.funcValues(mc.Bindings[idx], out, seen, depth+1)
+					}
+				}
+			}
+		}
+	case *ssa.UnOp:
+		if al, ok := x.X.(*ssa.Alloc); ok && x.Op == token.MUL && al.Referrers() != nil {
+			for _, r := range *al.Referrers() {
+				if st, ok := r.(*ssa.Store); ok && st.Addr == ssa.Value(al) {
+					s.funcValues(st.Val, out, seen, depth+1)
+				}
+			}
+		}
+	}
+}
+
+// calleesOf: the functions of the set a call reaches, statically or through a function value.
+func (s *c18Side) calleesOf(ci ssa.CallInstruction) []*ssa.Function {
+	if cal := staticCallee(ci.Common()); cal != nil {
+		if s.inSet[cal] {
+			return []*ssa.Function{cal}
+		}
+		return nil
+	}
+	return s.dynTargets(ci)
+}
+
+// leadsTo: the call reaches fn through at most depth calls inside the set.
+func (s *c18Side) leadsTo(ci ssa.CallInstruction, fn *ssa.Function, depth int) bool {
+	for _, cal := range s.calleesOf(ci) {
+		if cal == fn {
+			return true
+		}
+		if depth <= 0 {
+			continue
+		}
+		for _, b := range cal.Blocks {
+			for _, in := range b.Instrs {
+				if c2, ok := in.(ssa.CallInstruction); ok && s.leadsTo(c2, fn, depth-1) {
+					return true
+				}
+			}
+		}
+	}
+	return false
+}
+
+// originsIn: the values in function f that v stands for, following parameters to the arguments
+// at the call sites of this side (v itself when it already lives in f).
+func (s *c18Side) originsIn(v ssa.Value, f *ssa.Function, depth int) []ssa.Value {
+	if v == nil || depth > 6 {
+		return nil
+	}
+	if p, ok := v.(*ssa.Parameter); ok && p.Parent() != f {
+		idx := -1
+		for i, q := range p.Parent().Params {
+			if q == p {
+				idx = i
+			}
+		}
+		var out []ssa.Value
+		for _, cs := range s.callSites(p.Parent()) {
+			if args := cs.Common().Args; idx >= 0 && idx < len(args) {
+				out = append(out, s.originsIn(args[idx], f, depth+1)...)
+			}
+		}
+		return out
+	}
+	if in, ok := v.(ssa.Instruction); ok && in.Parent() != f {
+		return nil
+	}
+	if p, ok := v.(*ssa.Parameter); ok && p.Parent() != f {
+		return nil
+	}
+	return []ssa.Value{v}
 }
 
 func (s *c18Side) trace(v ssa.Value) *c18Trace {
@@ -553,10 +743,12 @@ func (s *c18Side) walk(v ssa.Value, t *c18Trace, seen map[ssa.Value]bool, depth 
 				return
 			}
 		}
-		if cal := staticCallee(cc); cal != nil && s.inSet[cal] {
-			for _, r := range returnsOf(cal) {
-				if res := retResults(r); idx < len(res) {
-					s.walk(res[idx], t, seen, depth+1)
+		if cals := s.calleesOf(call); len(cals) > 0 {
+			for _, cal := range cals {
+				for _, r := range returnsOf(cal) {
+					if res := retResults(r); idx < len(res) {
+						s.walk(res[idx], t, seen, depth+1)
+					}
 				}
 			}
 			return
@@ -2986,15 +3178,23 @@ func c18CodecAgreement(c *Ctx, pair c18Pair, readers, writers []*c18Side, orderR
 	// byte-order source
 	if strings.HasPrefix(fd[0], "fixed") || strings.HasPrefix(fe[0], "fixed") {
 		src := map[string]bool{}
+		// only the fixed-width codec calls have a byte order (a family mismatch is the codec obligation's)
 		for _, x := range dec {
-			src["reader: "+x.Order] = true
+			if strings.HasPrefix(x.Family, "fixed") {
+				src["reader: "+x.Order] = true
+			}
 		}
 		for _, x := range enc {
-			src["writer: "+x.Order] = true
+			if strings.HasPrefix(x.Family, "fixed") {
+				src["writer: "+x.Order] = true
+			}
 		}
 		plain := map[string]bool{}
 		unknown := false
 		for _, x := range append(append([]c18Codec{}, dec...), enc...) {
+			if !strings.HasPrefix(x.Family, "fixed") {
+				continue
+			}
 			plain[x.Order] = true
 			if strings.HasPrefix(x.Order, "?") {
 				unknown = true
@@ -3054,13 +3254,51 @@ func c18CodecAgreement(c *Ctx, pair c18Pair, readers, writers []*c18Side, orderR
 			}
 			cons := c18ShortFn(e.Fn) + "+encoded-length"
 			tr := s.trace(e.Value)
-			var writes []ssa.CallInstruction
-			for _, ci := range callsIn(e.Fn, func(_ string, cc *ssa.CallCommon) bool {
-				_, _, name := c18CallInfo(cc)
-				return name == "Write" && len(c18Args(cc)) == 1 && c18IsByteSlice(c18Args(cc)[0].Type())
-			}) {
-				writes = append(writes, ci)
+			// The frame is put together in the function that takes len(body): the encoder's own
+			// function, or a helper that is handed the encoder as a function value / calls it
+			// through other module functions. Writes, their order and the prefix buffer are
+			// looked at there, with the encoder's parameters bound to this writer's arguments.
+			writesIn := func(f *ssa.Function) []ssa.CallInstruction {
+				return callsIn(f, func(_ string, cc *ssa.CallCommon) bool {
+					_, _, name := c18CallInfo(cc)
+					return name == "Write" && len(c18Args(cc)) == 1 && c18IsByteSlice(c18Args(cc)[0].Type())
+				})
 			}
+			sitesIn := func(f *ssa.Function) []ssa.CallInstruction {
+				if f == e.Fn {
+					return []ssa.CallInstruction{e.Call}
+				}
+				var out []ssa.CallInstruction
+				for _, b := range f.Blocks {
+					for _, in := range b.Instrs {
+						if ci, ok := in.(ssa.CallInstruction); ok && s.leadsTo(ci, e.Fn, 3) {
+							out = append(out, ci)
+						}
+					}
+				}
+				return out
+			}
+			isPrefixIn := func(f *ssa.Function, pa ssa.Value) bool {
+				base := pa
+				if sl, ok := pa.(*ssa.Slice); ok {
+					base = sl.X
+				}
+				if f == e.Fn {
+					return c18SamePlace(base, e.Buf) || base == e.Call.Value()
+				}
+				for _, site := range sitesIn(f) {
+					if v := site.Value(); v != nil && base == ssa.Value(v) && s.yieldsPrefix(site, e, 3) {
+						return true // the helper returns the buffer it encoded the prefix into
+					}
+				}
+				for _, o := range s.originsIn(e.Buf, f, 0) {
+					if base == o || c18SamePlace(base, o) {
+						return true // the buffer handed to the encoder
+					}
+				}
+				return false
+			}
+			var prefixWrites []ssa.CallInstruction
 			if len(tr.Lens) == 0 {
 				c.note("%s: the encoded length is not a len(...) (marshaler fast path: Size()/ProtoSize() and offset arithmetic); agreement with the bytes written is not modelled", c18ShortFn(e.Fn))
 				continue
@@ -3070,10 +3308,21 @@ func c18CodecAgreement(c *Ctx, pair c18Pair, readers, writers []*c18Side, orderR
 			for _, l := range tr.Lens {
 				_, _, name := c18CallInfo(l.Common())
 				body := l.Common().Args[0]
+				frame := l.Parent()
+				writes := writesIn(frame)
+				sites := sitesIn(frame)
+				encodedBefore := func(in ssa.Instruction) bool {
+					for _, st := range sites {
+						if instrDominates(st, in) {
+							return true
+						}
+					}
+					return false
+				}
 				written, prefixFirst := false, false
 				for _, wr := range writes {
 					a := c18Args(wr.Common())[0]
-					if !instrDominates(e.Call, wr) {
+					if !encodedBefore(wr) {
 						continue
 					}
 					if ap, ok := a.(*ssa.Call); ok {
@@ -3088,12 +3337,16 @@ func c18CodecAgreement(c *Ctx, pair c18Pair, readers, writers []*c18Side, orderR
 					written = true
 					for _, pw := range writes {
 						pa := c18Args(pw.Common())[0]
-						isPrefix := c18SamePlace(pa, e.Buf) || pa == e.Call.Value()
-						if sl, ok := pa.(*ssa.Slice); ok && (c18SamePlace(sl.X, e.Buf) || sl.X == e.Call.Value()) {
-							isPrefix = true
+						// the encode happens before the prefix write, or is its very argument
+						encoded := encodedBefore(pw)
+						for _, st := range sites {
+							if v := st.Value(); v != nil && (pa == ssa.Value(v)) {
+								encoded = true
+							}
 						}
-						if isPrefix && pw != wr && instrDominates(pw, wr) && instrDominates(e.Call, pw) {
+						if isPrefixIn(frame, pa) && pw != wr && instrDominates(pw, wr) && encoded {
 							prefixFirst = true
+							prefixWrites = append(prefixWrites, pw)
 						}
 					}
 				}
@@ -3122,19 +3375,147 @@ func c18CodecAgreement(c *Ctx, pair c18Pair, readers, writers []*c18Side, orderR
 				var want int64
 				fmt.Sscanf(strings.TrimPrefix(e.Family, "fixed"), "%d", &want)
 				want /= 8
-				for _, wr := range writes {
-					a := c18Args(wr.Common())[0]
-					if !c18SameSlice(a, e.Buf) {
+				seenPW := map[ssa.CallInstruction]bool{}
+				for _, wr := range prefixWrites {
+					if seenPW[wr] {
 						continue
 					}
-					if n, ok := c18SliceLen(a, pkgFns, 0); ok {
-						c.check(n == want, "D5", c18ShortFn(e.Fn)+"+prefix-width", posOf(wr), fmt.Sprintf("the prefix written is exactly %d bytes", want),
-							fmt.Sprintf("the prefix buffer written is %d bytes, the codec fills %d", n, want))
+					seenPW[wr] = true
+					a := c18Args(wr.Common())[0]
+					lens, complete := s.sliceLens(a, pkgFns, e.Fn, 0)
+					var wrong []string
+					for _, n := range lens {
+						if n != want {
+							wrong = append(wrong, fmt.Sprint(n))
+						}
+					}
+					switch {
+					case len(wrong) > 0:
+						c.fail("D5", c18ShortFn(e.Fn)+"+prefix-width", posOf(wr), "the prefix buffer written is %s bytes long (at one of the call sites that supply it), the codec fills %d", strings.Join(c18Uniq(wrong), "/"), want)
+					case complete:
+						c.ok("D5", c18ShortFn(e.Fn)+"+prefix-width", posOf(wr), "the prefix written is exactly %d bytes", want)
 					}
 				}
 			}
 		}
 	}
+}
+
+// yieldsPrefix: the value of call site is the buffer encoder e filled — the function containing
+// the encoder call returns that buffer (or a slice of it, or the Append* result), and every
+// function between the site and it hands the inner call's value on unchanged.
+func (s *c18Side) yieldsPrefix(site ssa.CallInstruction, e c18Codec, depth int) bool {
+	cals := s.calleesOf(site)
+	if len(cals) == 0 || depth < 0 {
+		return false
+	}
+	relevant := 0
+	for _, cal := range cals {
+		if cal != e.Fn && !s.fnLeadsTo(cal, e.Fn, depth) {
+			continue // another encoder bound to the same parameter: judged under its own obligation
+		}
+		rets := returnsOf(cal)
+		if len(rets) == 0 {
+			return false
+		}
+		for _, r := range rets {
+			res := retResults(r)
+			if len(res) == 0 {
+				return false
+			}
+			v := res[0]
+			if cal == e.Fn {
+				base := v
+				if sl, ok := v.(*ssa.Slice); ok {
+					base = sl.X
+				}
+				if !(base == e.Buf || c18SamePlace(base, e.Buf) || (e.Call.Value() != nil && base == ssa.Value(e.Call.Value()))) {
+					return false
+				}
+				continue
+			}
+			inner, ok := v.(*ssa.Call)
+			if !ok || !s.leadsTo(inner, e.Fn, depth) || !s.yieldsPrefix(inner, e, depth-1) {
+				return false
+			}
+		}
+		relevant++
+	}
+	return relevant > 0
+}
+
+// sliceLens: c18SliceLen extended through this side's calls: a parameter has the lengths of the
+// arguments it is bound to, a call result those of the callee's returned slices (only callees
+// that are, or lead to, function only when it is given). complete = every alternative resolved.
+func (s *c18Side) sliceLens(v ssa.Value, pkgFns []*ssa.Function, only *ssa.Function, depth int) (lens []int64, complete bool) {
+	if v == nil || depth > 6 {
+		return nil, false
+	}
+	if n, ok := c18SliceLen(v, pkgFns, 0); ok {
+		return []int64{n}, true
+	}
+	collect := func(vals []ssa.Value) ([]int64, bool) {
+		var out []int64
+		all := len(vals) > 0
+		for _, x := range vals {
+			l, ok := s.sliceLens(x, pkgFns, only, depth+1)
+			out = append(out, l...)
+			if !ok {
+				all = false
+			}
+		}
+		return out, all
+	}
+	switch x := v.(type) {
+	case *ssa.Parameter:
+		idx := -1
+		for i, q := range x.Parent().Params {
+			if q == x {
+				idx = i
+			}
+		}
+		var args []ssa.Value
+		for _, cs := range s.callSites(x.Parent()) {
+			a := cs.Common().Args
+			if idx < 0 || idx >= len(a) {
+				return nil, false
+			}
+			args = append(args, a[idx])
+		}
+		return collect(args)
+	case *ssa.Call:
+		var vals []ssa.Value
+		for _, cal := range s.calleesOf(x) {
+			if only != nil && cal != only && !s.fnLeadsTo(cal, only, 3) {
+				continue
+			}
+			for _, r := range returnsOf(cal) {
+				res := retResults(r)
+				if len(res) == 0 {
+					return nil, false
+				}
+				vals = append(vals, res[0])
+			}
+		}
+		return collect(vals)
+	case *ssa.Slice:
+		if x.Low == nil && x.High == nil && x.Max == nil {
+			return s.sliceLens(x.X, pkgFns, only, depth+1)
+		}
+	}
+	return nil, false
+}
+
+// fnLeadsTo: f contains a call that reaches fn.
+func (s *c18Side) fnLeadsTo(f, fn *ssa.Function, depth int) bool {
+	for _, b := range f.Blocks {
+		for _, in := range b.Instrs {
+			if ci, ok := in.(ssa.CallInstruction); ok && s.leadsTo(ci, fn, depth) {
+				return true
+			}
+		}
+	}
+	return false
 }
 
 func c18PkgFuncs(w *World) []*ssa.Function {
